@@ -9,7 +9,7 @@
    (b) Before 9e87d89 ModuleRef::module_restart went on with the later stages after a panic that the
        stereotype catches (Harness::catch returns Ok): same effect inside a restart event. *)
 From Coq Require Import List NArith Bool.
-From DesVerif Require Import Common.Fuel Life.Model Life.Events Life.Panic Life.Silent.
+From DesVerif Require Import Common.Fuel Life.Model Life.Step Life.Events Life.Panic Life.Silent.
 Import ListNotations.
 Open Scope N_scope.
 
@@ -112,3 +112,23 @@ Lemma C13_pinned_snapshot_refuted :
   w_err (x_w s_snap) = [(0, 0)] /\ perrs s_sc (x_log s_snap) = [] /\
   x_log s_real = x_log s_snap /\ w_err (x_w s_real) = [] /\ perrs s_sc (x_log s_real) = [].
 Proof. vm_compute. repeat split; reflexivity. Qed.
+
+(* (d) containment against current().shutdow_and_restart_at(t) with t in the past being ACCEPTED inside the callback, as
+   before 09c7b16 (F19; the code now panics inside the call, and the model decodes the scripted call to [APanic]).  One event of
+   module 0 in isolation at t = 5 whose callback registers a restart at t = 1 and returns: buf_process consumes the request
+   and queues the restart event BEFORE the clock of the event set -- the invariant of Life/Future.v ("nothing is scheduled
+   into the past", on which the event loop's time order rests) is broken.  The real event set answers exactly this insertion
+   with panic!("Cannot add past event to calender queue"), after the callback and outside the panic harness: run() itself
+   panicked, nothing was contained or attributed (corpus/C13/library_panics.txt line 3 crashes the runner on a166d25). *)
+Definition r_w : world := set_fes (init_world s_sc) {| f_tcur := 5; f_zero := []; f_rest := [] |}.
+Definition r_w' : world := fst (around s_sc 5 0 (fun s => on_w (request 0 (Some 1)) s) r_w).
+
+Lemma C13_pinned_restart_at_past_refuted :
+  fes_order (w_fes r_w') = [(1, EvRestart 0)] /\ f_tcur (w_fes r_w') = 5 /\
+  ~ (forall p, In p (fes_order (w_fes r_w')) -> f_tcur (w_fes r_w') <= fst p).
+Proof.
+  assert (E : fes_order (w_fes r_w') = [(1, EvRestart 0)] /\ f_tcur (w_fes r_w') = 5) by (vm_compute; split; reflexivity).
+  destruct E as [E1 E2]. split; [exact E1|split; [exact E2|]]. intros H. specialize (H (1, EvRestart 0)). rewrite E1, E2 in H.
+  specialize (H (or_introl eq_refl)). vm_compute in H. apply H. reflexivity.
+Qed.
+
